@@ -26,6 +26,9 @@ func FamilySignature(thorough bool) []*Conv {
 		add("default_exported", f, "source *PFXIn", "*PFXOut", "func PFXNew() *PFXOut { return &PFXOut{} }\n", nil, []string{"default PFXNew"}, "")
 		// declarations with a wrong shape
 		add("two_sources", f, "source PFXIn, other PFXIn", "PFXOut", "", nil, nil, "two source parameters")
+		add("two_sources_second_blank", f, "source PFXIn, _ PFXIn", "PFXOut", "", nil, nil, "two source parameters (the second one is blank)")
+		add("extend_two_sources_second_blank", f, "source PFXIn", "PFXOut", "func PFXAge2(i int, _ bool) int { return i }\n", []string{"extend PFXAge2"}, nil, "extend function with two source parameters (the second one is blank)")
+		add("extend_generic_phantom", f, "source PFXIn", "PFXOut", "func PFXGenP[Strategy any](i int) int { return i }\n", []string{"extend PFXGenP"}, nil, "generic extend function (the type parameter does not occur in the signature)")
 		add("no_result", f, "source PFXIn", "", "", nil, nil, "no result and no update argument")
 		add("second_result_not_error", f, "source PFXIn", "(PFXOut, int)", "", nil, nil, "second result is not error")
 		add("three_results", f, "source PFXIn", "(PFXOut, error, error)", "", nil, nil, "three results")
@@ -63,6 +66,8 @@ func FamilySignature(thorough bool) []*Conv {
 	// goverter:context names a parameter: a name without a parameter is reported, on a method and on a custom function
 	for _, f := range []string{"struct", "function", "variable"} {
 		add("context_names_missing_parameter", f, "source PFXIn", "PFXOut", "", nil, []string{"context nosuch"}, "goverter:context names a parameter that does not exist")
+		add("context_names_one_missing_parameter_behind_a_valid_one", f, "source PFXIn, ctxA PFXCtx", "PFXOut", "type PFXCtx struct{ Z int }\n", nil, []string{"context ctxA", "context zone"}, "goverter:context names a parameter that does not exist (a second line names an existing one)")
+		add("context_names_one_missing_parameter_before_a_valid_one", f, "source PFXIn, zone PFXCtx", "PFXOut", "type PFXCtx struct{ Z int }\n", nil, []string{"context zone", "context actx"}, "goverter:context names a parameter that does not exist (a second line names an existing one)")
 		add("context_names_missing_parameter_on_function", f, "source PFXIn", "PFXOut", "// goverter:context lokup\nfunc PFXAge(i int) int { return i }\n", []string{"extend PFXAge"}, nil, "goverter:context in the doc comment of a custom function names a parameter that does not exist")
 	}
 	// settings that need a value and are written without one are reported, not accepted without effect
